@@ -475,7 +475,7 @@ ASSUMPTIONS = [
 
 def thorough_extras(pid, targets, seed):
     """(a) proof stability: the same units under another Z3 seed and a doubled resource limit;
-    (b) kill matrix: every seeded change under /verif/seeded that targets this property is applied to a
+    (b) kill matrix: every seeded change under /verif/seeded whose own property is this one is applied to a
     scratch copy of /repo and must make this check report a violation.  Neither changes the verdict on the
     current tree; both are reported in the evidence."""
     import shutil, subprocess, tempfile
@@ -507,7 +507,7 @@ def thorough_extras(pid, targets, seed):
     mine = []
     for d in ids:
         meta = json.load(open(os.path.join(seeded, d, 'meta.json')))
-        if pid in (meta.get('caught_by') or []) or meta.get('property') == pid:
+        if meta.get('property') == pid:
             mine.append((d, meta))
     if mine:
         tmp = tempfile.mkdtemp(prefix='verif-kill-', dir='/tmp')
